@@ -9,6 +9,22 @@ pub struct Batch {
     text: String,
     next_line: usize,
     pub blocks: Vec<BatchBlock>,
+    /// Companion blocks (other validators' violating blocks that share the file): attributes'
+    /// diagnostic code and the line range of the block. Not part of `blocks`.
+    pub companions: Vec<(String, usize, usize)>,
+    host: BatchHost,
+}
+
+/// How the tags of a batch are hosted.
+#[derive(Default, Clone, Copy, Debug, PartialEq, Eq)]
+pub enum BatchHost {
+    /// `# <block …>` in a Python file.
+    #[default]
+    Py,
+    /// Markdown: the start tag sits on the first line of a three-line HTML comment (the comment
+    /// goes on for two lines after the tag), the end tag in a one-line HTML comment after a blank
+    /// line.
+    MdMulti,
 }
 
 #[derive(Clone, Debug)]
@@ -17,13 +33,30 @@ pub struct BatchBlock {
     pub tag_line: usize,
     /// 1-based line of the end tag comment.
     pub end_line: usize,
+    /// 1-based line of the first content line given to `block`.
+    pub first_content_line: usize,
     pub attrs: String,
     pub lines: Vec<String>,
 }
 
 impl Batch {
     pub fn new() -> Self {
-        Self { text: String::new(), next_line: 1, blocks: Vec::new() }
+        Self { text: String::new(), next_line: 1, blocks: Vec::new(), companions: Vec::new(), host: BatchHost::Py }
+    }
+    pub fn with_host(host: BatchHost) -> Self {
+        let mut b = Self::new();
+        b.host = host;
+        if host == BatchHost::MdMulti {
+            b.raw_line("# Title");
+            b.raw_line("");
+        }
+        b
+    }
+    pub fn file_name(&self) -> &'static str {
+        match self.host {
+            BatchHost::Py => "x.py",
+            BatchHost::MdMulti => "x.md",
+        }
     }
     pub fn raw_line(&mut self, line: &str) {
         debug_assert!(!line.contains('\n'));
@@ -33,16 +66,49 @@ impl Batch {
     }
     /// Appends a block and returns its index.
     pub fn block(&mut self, attrs: &str, lines: &[String]) -> usize {
+        let (tag_line, first_content_line, end_line) = self.write_block(attrs, lines);
+        self.blocks.push(BatchBlock { tag_line, end_line, first_content_line, attrs: attrs.to_string(), lines: lines.to_vec() });
+        self.blocks.len() - 1
+    }
+    fn write_block(&mut self, attrs: &str, lines: &[String]) -> (usize, usize, usize) {
         let tag_line = self.next_line;
-        let tag = if attrs.is_empty() { "# <block>".to_string() } else { format!("# <block {attrs}>") };
-        self.raw_line(&tag);
+        let tag = if attrs.is_empty() { "<block>".to_string() } else { format!("<block {attrs}>") };
+        match self.host {
+            BatchHost::Py => self.raw_line(&format!("# {tag}")),
+            BatchHost::MdMulti => {
+                self.raw_line(&format!("<!-- {tag}"));
+                self.raw_line("     the comment goes on");
+                self.raw_line("-->");
+            }
+        }
+        let first_content_line = self.next_line;
         for l in lines {
             self.raw_line(l);
         }
-        let end_line = self.next_line;
-        self.raw_line("# </block>");
-        self.blocks.push(BatchBlock { tag_line, end_line, attrs: attrs.to_string(), lines: lines.to_vec() });
-        self.blocks.len() - 1
+        let end_line = match self.host {
+            BatchHost::Py => {
+                self.raw_line("# </block>");
+                self.next_line - 1
+            }
+            BatchHost::MdMulti => {
+                self.raw_line("");
+                self.raw_line("<!-- </block> -->");
+                self.raw_line("");
+                self.next_line - 2
+            }
+        };
+        (tag_line, first_content_line, end_line)
+    }
+    /// Appends a block of another validator that is violated by construction; `code` is the
+    /// diagnostic code it must produce exactly once.
+    pub fn companion(&mut self, code: &str, attrs: &str, lines: &[&str]) {
+        let lines: Vec<String> = lines.iter().map(|l| l.to_string()).collect();
+        let (tag_line, _, end_line) = self.write_block(attrs, &lines);
+        self.companions.push((code.to_string(), tag_line, end_line));
+    }
+    /// Index of the companion whose lines contain `line`.
+    pub fn companion_at(&self, line: usize) -> Option<usize> {
+        self.companions.iter().position(|c| c.1 <= line && line <= c.2)
     }
     pub fn text(&self) -> &str {
         &self.text
